@@ -1,3 +1,53 @@
+/-
+  Props/C20.lean — C20: document diffing reports the true first and last difference.
+  (Termination of the model is by structural recursion; termination of the Python loops is checked
+  by the per-call alarm of the correspondence run.)  Helper lemmas in Proofs/Diff.lean.
+-/
 import PM.Diff
+import Proofs.Diff
 namespace PM.C20
+open PM
+
+/-- **first difference: nothing is reported exactly when the fragments are equal** -/
+theorem diffStart_none_iff (a b : List Node) (pos : Nat) : diffStart a b pos = none ↔ a = b := by
+  sorry
+
+/-- **first difference: otherwise the position up to which the marked-up token sequences agree** -/
+theorem diffStart_lcp (a b : List Node) (pos q : Nat) (ha : fnorm a = true) (hb : fnorm b = true)
+    (h : diffStart a b pos = some q) : q = pos + lcpLen (fmtoks a) (fmtoks b) := by
+  sorry
+
+/-- the reported position never exceeds either fragment -/
+theorem diffStart_le (a b : List Node) (pos q : Nat) (h : diffStart a b pos = some q) :
+    q ≤ pos + fsize a ∧ q ≤ pos + fsize b := by
+  sorry
+
+/-- **last difference: nothing is reported exactly when the fragments are equal** -/
+theorem diffEnd_none_iff (a b : List Node) (pa pb : Nat) : diffEnd a b pa pb = none ↔ a = b := by
+  sorry
+
+/-- **last difference: otherwise the pair of positions after which the marked-up token sequences
+    agree** (the length of their longest common suffix, counted back from both ends) -/
+theorem diffEnd_lcs (a b : List Node) (qa qb : Nat) (ha : fnorm a = true) (hb : fnorm b = true)
+    (h : diffEnd a b (fsize a) (fsize b) = some (qa, qb)) :
+    qa + lcpLen (fmtoks a).reverse (fmtoks b).reverse = fsize a ∧
+    qb + lcpLen (fmtoks a).reverse (fmtoks b).reverse = fsize b := by
+  sorry
+
+/-- the guard `fnorm` is necessary for the token statement: a non-normal pair with equal token
+    sequences that the scan tells apart -/
+theorem diffStart_needs_norm :
+    let a := [Node.text [97, 98] []]
+    let b := [Node.text [97] [], Node.text [98] []]
+    fmtoks a = fmtoks b ∧ diffStart a b 0 = some 1 ∧ fnorm b = false := by
+  decide
+
+/-- non-vacuity: astral text (surrogate pairs) differing in the low surrogate -/
+example :
+    diffStart [Node.elem 1 [] [] [Node.text [120, 55357, 56832, 97] []]]
+              [Node.elem 1 [] [] [Node.text [120, 55357, 56833, 97] []]] 0 = some 3 ∧
+    diffEnd [Node.elem 1 [] [] [Node.text [120, 55357, 56832, 97] []]]
+            [Node.elem 1 [] [] [Node.text [121, 55357, 56832, 97] []]] 6 6 = some (2, 2) := by
+  decide
+
 end PM.C20
